@@ -3,7 +3,7 @@
    the OCaml driver only converts ints <-> N and prints. *)
 From Coq Require Import NArith List Bool.
 Import ListNotations.
-From CXV Require Import Gen.TokTy Gen.ParserTables Parse.Balanced.
+From CXV Require Import Gen.TokTy Gen.ParserTables Parse.Balanced Gen.Blocks Parse.BlocksSM.
 Open Scope N_scope.
 
 Definition nlen {A} (l : list A) : N := N.of_nat (length l).
@@ -23,8 +23,48 @@ Definition enc_res (r : res (list N * list N)) : list N :=
   | ErrInternal => [3]
   end.
 
+Definition kind_of (n : N) : kind := match n with 0 => KNs | 1 => KExtern | _ => KClass end.
+Definition kind_code (k : kind) : N := match k with KNs => 0 | KExtern => 1 | KClass => 2 end.
+
+Fixpoint dec_evs (fuel : nat) (l : list N) : list ev :=
+  match fuel with
+  | O => []
+  | S f =>
+      match l with
+      | 1 :: k :: a :: r => EvOpen (kind_of k) a :: dec_evs f r
+      | 2 :: r => EvClose :: dec_evs f r
+      | 3 :: c :: r => EvItem c :: dec_evs f r
+      | 4 :: a :: r => EvAccess a :: dec_evs f r
+      | _ => []
+      end
+  end.
+
+Fixpoint enc_cbs (l : list cb) : list N :=
+  match l with
+  | [] => []
+  | CbParseStart id :: r => 0 :: id :: enc_cbs r
+  | CbStart k id par :: r => 1 :: kind_code k :: id :: par :: enc_cbs r
+  | CbEnd k id :: r => 2 :: kind_code k :: id :: enc_cbs r
+  | CbItem c id a :: r => 3 :: c :: id :: a :: enc_cbs r
+  end.
+
+Definition status_code (s : status) : N :=
+  match s with Running => 0 | ErrRootPop => 1 | ErrAccessOutsideClass => 2 | ErrStuck => 3 end.
+
+Definition run_blocks (args : list N) : list N :=
+  match args with
+  | n :: r =>
+      let k := N.to_nat n in
+      let skips := take k r in
+      let evs := dec_evs (length r) (drop k r) in
+      let m := run (fun id => memN id skips) evs in
+      enc_cbs (stream m) ++ [9; status_code (st m)]
+  | [] => [99]
+  end.
+
 Definition run_case (cmd : N) (args : list N) : list N :=
   match cmd, args with
+  | 10, _ => run_blocks args
   | 1, s :: e :: toks =>
       match discard idN s e 1 toks with
       | Ok rest => [0; nlen rest]
